@@ -36,8 +36,14 @@ impl Dumper {
         let mut by_start = HashMap::new();
         let mut by_end = HashMap::new();
         for (i, t) in tokens.iter().enumerate() {
-            by_start.insert(t.0, i);
-            by_end.insert(t.1, i);
+            // a zero-width token (EOF) must not shadow the real token that ends / starts at the same byte
+            if t.0 == t.1 {
+                by_start.entry(t.0).or_insert(i);
+                by_end.entry(t.1).or_insert(i);
+            } else {
+                by_start.insert(t.0, i);
+                by_end.insert(t.1, i);
+            }
         }
         Dumper { by_start, by_end, tokens, unsupported: false }
     }
